@@ -1,23 +1,403 @@
-"""C06 - typed Builder stores and Slice loads are mutually inverse and bit-exact."""
+"""C06 - typed Builder stores and Slice loads are mutually inverse and bit-exact.
+
+Engine A on the real Builder / Slice / Address code.  Values are symbolic over the full width of their type;
+widths, sequence shapes, string lengths and address forms are enumerated (one instance each).
+"""
+import itertools
+
 from sx.api import *
-from pytoniq_core.boc import Builder, Cell, Slice
+from specs.enc import *
+from pytoniq_core.boc import Builder, Cell, Slice, Address, ExternalAddress
 
 PROPERTY = 'C06'
 
 
-def h_uint(ctx, width):
-    x = ctx.uint('x', width)
-    c = Builder().store_uint(x, width).end_cell()
-    ctx.require(c.bits.to01() == bits_of_uint(x, width), 'uint: bits are the big-endian encoding')
+# ------------------------------------------------------------------------------- type alphabet
+class T:
+    refs = 0
+
+    def eq(self, a, b):
+        return a == b
+
+
+class TUInt(T):
+    def __init__(self, w): self.w = w; self.name = f'u{w}'
+    def make(self, ctx, n): return ctx.uint(n, self.w)
+    def store(self, b, v): b.store_uint(v, self.w)
+    def load(self, s): return s.load_uint(self.w)
+    def preload(self, s): return s.preload_uint(self.w)
+    def enc(self, v): return enc_uint(v, self.w)
+
+
+class TInt(T):
+    def __init__(self, w): self.w = w; self.name = f'i{w}'
+    def make(self, ctx, n): return ctx.sint(n, self.w)
+    def store(self, b, v): b.store_int(v, self.w)
+    def load(self, s): return s.load_int(self.w)
+    def preload(self, s): return s.preload_int(self.w)
+    def enc(self, v): return enc_int(v, self.w)
+
+
+class TVarUInt(T):
+    def __init__(self, lb, vbits=None):
+        self.lb = lb; self.vbits = vbits if vbits is not None else 8 * ((1 << lb) - 1); self.name = f'vu{lb}'
+    def make(self, ctx, n): return ctx.uint(n, self.vbits)
+    def store(self, b, v): b.store_var_uint(v, self.lb)
+    def load(self, s): return s.load_var_uint(self.lb)
+    def preload(self, s): return s.preload_var_uint(self.lb)
+    def enc(self, v): return enc_var_uint(v, self.lb)
+
+
+class TVarInt(T):
+    def __init__(self, lb, vbits=None):
+        self.lb = lb; self.vbits = vbits if vbits is not None else 8 * ((1 << lb) - 1); self.name = f'vi{lb}'
+    def make(self, ctx, n): return ctx.sint(n, self.vbits)
+    def store(self, b, v): b.store_var_int(v, self.lb)
+    def load(self, s): return s.load_var_int(self.lb)
+    def preload(self, s): return s.preload_var_int(self.lb)
+    def enc(self, v): return enc_var_int(v, self.lb)
+
+
+class TCoins(T):
+    name = 'coins'
+    def __init__(self, vbits=120): self.vbits = vbits
+    def make(self, ctx, n): return ctx.uint(n, self.vbits)
+    def store(self, b, v): b.store_coins(v)
+    def load(self, s): return s.load_coins()
+    def preload(self, s): return s.preload_coins()
+    def enc(self, v): return enc_coins(v)
+
+
+class TBit(T):
+    name = 'bit'
+    def make(self, ctx, n): return ctx.uint(n, 1)
+    def store(self, b, v): b.store_bit(v)
+    def load(self, s): return s.load_bit()
+    def preload(self, s): return s.preload_bit()
+    def enc(self, v): return enc_uint(v, 1)
+
+
+class TBool(T):
+    name = 'bool'
+    def make(self, ctx, n): return ctx.boolean(n)
+    def store(self, b, v): b.store_bool(v)
+    def load(self, s): return s.load_bool()
+    def preload(self, s): return s.preload_bool()
+    def enc(self, v): return enc_uint(Ite(v, 1, 0), 1)
+    def eq(self, a, b): return Iff(a, b)
+
+
+class TBits(T):
+    def __init__(self, n): self.n = n; self.name = f'bits{n}'
+    def make(self, ctx, n): return ctx.bitstr(n, self.n)
+    def store(self, b, v): b.store_bits(v)
+    def load(self, s): return s.load_bits(self.n).to01()
+    def preload(self, s): return s.preload_bits(self.n).to01()
+    def enc(self, v): return v
+
+
+class TBytes(T):
+    def __init__(self, n): self.n = n; self.name = f'bytes{n}'
+    def make(self, ctx, n): return ctx.bytes_(n, self.n)
+    def store(self, b, v): b.store_bytes(v)
+    def load(self, s): return s.load_bytes(self.n)
+    def preload(self, s): return s.preload_bytes(self.n)
+    def enc(self, v): return bits_of_bytes(v)
+
+
+class TStr(T):
+    def __init__(self, n): self.n = n; self.name = f'str{n}'
+    def make(self, ctx, n): return ctx.ascii(n, self.n)
+    def store(self, b, v): b.store_string(v)
+    def load(self, s): return s.load_string(self.n) if self.n else ''
+    def preload(self, s): return s.preload_string(self.n) if self.n else ''
+    def enc(self, v): return bits_of_bytes(v.encode())
+
+
+class TMaybeRef(T):
+    def __init__(self, present, dict_=False):
+        self.present = present; self.dict_ = dict_
+        self.name = ('dict' if dict_ else 'mref') + str(int(present)); self.refs = int(present)
+    def make(self, ctx, n):
+        if not self.present:
+            return None
+        return Builder().store_bits(ctx.bitstr(n, 9)).end_cell()
+    def store(self, b, v): b.store_dict(v) if self.dict_ else b.store_maybe_ref(v)
+    def load(self, s): return s.load_maybe_ref()
+    def preload(self, s): return s.preload_maybe_ref()
+    def enc(self, v): return '1' if self.present else '0'
+    def eq(self, a, b):
+        if a is None or b is None:
+            return a is None and b is None
+        return And(a.bits.to01() == b.bits.to01(), a.hash == b.hash)
+
+
+class TRef(T):
+    name = 'ref'; refs = 1
+    def make(self, ctx, n): return Builder().store_bits(ctx.bitstr(n, 5)).end_cell()
+    def store(self, b, v): b.store_ref(v)
+    def load(self, s): return s.load_ref()
+    def preload(self, s): return s.preload_ref()
+    def enc(self, v): return ''
+    def eq(self, a, b): return And(a.bits.to01() == b.bits.to01(), a.hash == b.hash)
+
+
+class TAddrNone(T):
+    name = 'addr_none'
+    def make(self, ctx, n): return None
+    def store(self, b, v): b.store_address(v)
+    def load(self, s): return s.load_address()
+    def preload(self, s): return s.preload_address()
+    def enc(self, v): return enc_addr_none()
+    def eq(self, a, b): return a is None and b is None
+
+
+class TAddrStd(T):
+    def __init__(self, anycast_depth=0):
+        self.d = anycast_depth; self.name = 'addr_std' + (f'_any{self.d}' if self.d else '')
+    def make(self, ctx, n):
+        a = Address((ctx.sint(n + '_wc', 8), ctx.bytes_(n + '_acc', 32)))
+        if self.d:
+            a.set_anycast(self.d, ctx.uint(n + '_pfx', self.d))
+        return a
+    def store(self, b, v): b.store_address(v)
+    def load(self, s): return s.load_address()
+    def preload(self, s): return s.preload_address()
+    def enc(self, v):
+        return enc_addr_std(v.wc, v.hash_part, (v.anycast.depth, v.anycast.rewrite_pfx) if v.anycast is not None else None)
+    def eq(self, a, b):
+        if not isinstance(a, Address) or not isinstance(b, Address):
+            return False
+        same = And(a.wc == b.wc, a.hash_part == b.hash_part)
+        if (a.anycast is None) != (b.anycast is None):
+            return False
+        if a.anycast is not None:
+            same = And(same, a.anycast.depth == b.anycast.depth, a.anycast.rewrite_pfx == b.anycast.rewrite_pfx)
+        return same
+
+
+class TAddrExt(T):
+    def __init__(self, n): self.n = n; self.name = f'addr_ext{n}'
+    def make(self, ctx, n): return ExternalAddress(ctx.uint(n, self.n) if self.n else 0, self.n)
+    def store(self, b, v): b.store_address(v)
+    def load(self, s): return s.load_address()
+    def preload(self, s): return s.preload_address()
+    def enc(self, v): return enc_addr_extern(v.external_address, v.len)
+    def eq(self, a, b):
+        if not isinstance(a, ExternalAddress) or not isinstance(b, ExternalAddress):
+            return False
+        return And(a.external_address == b.external_address, a.len == b.len)
+
+
+def parse_type(t):
+    import re
+    m = re.fullmatch(r'([a-z_]+?)(\d*)', t)
+    k, n = m.group(1), int(m.group(2)) if m.group(2) else None
+    if k == 'u': return TUInt(n)
+    if k == 'i': return TInt(n)
+    if k == 'vu': return TVarUInt(n)
+    if k == 'vi': return TVarInt(n)
+    if k == 'svu': return TVarUInt(4, 24)         # short value range: cheap member for sequences
+    if k == 'svi': return TVarInt(4, 24)
+    if k == 'coins': return TCoins(n or 120)
+    if k == 'bit': return TBit()
+    if k == 'bool': return TBool()
+    if k == 'bits': return TBits(n)
+    if k == 'bytes': return TBytes(n)
+    if k == 'str': return TStr(n)
+    if k == 'mref': return TMaybeRef(bool(n))
+    if k == 'dict': return TMaybeRef(bool(n), True)
+    if k == 'ref': return TRef()
+    if k == 'addr_none': return TAddrNone()
+    if k == 'addr_std': return TAddrStd()
+    if k == 'addr_any': return TAddrStd(n)
+    if k == 'addr_ext': return TAddrExt(n)
+    raise ValueError(t)
+
+
+# ------------------------------------------------------------------------------- the generic harness
+def h_seq(ctx, types, twin=None):
+    """store a sequence of typed values, compare the cell with the TL-B encoding, load them back in order"""
+    ts = [parse_type(t) for t in types]
+    vals = [t.make(ctx, f'v{i}') for i, t in enumerate(ts)]
+    b = Builder()
+    for t, v in zip(ts, vals):
+        t.store(b, v)                      # a value that fits its type must never be rejected
+    c = b.end_cell()
+    want = cat_bits(*[t.enc(v) for t, v in zip(ts, vals)])
+    if twin == 'plus1':      # vacuity twin: a deliberately wrong oracle must be refuted
+        want = cat_bits(ts[0].enc(vals[0] ^ 1), *[t.enc(v) for t, v in zip(ts[1:], vals[1:])])
+    ctx.require(c.bits.to01() == want, 'cell bits are the TL-B encoding')
+    ctx.require(len(c.refs) == sum(t.refs for t in ts), 'reference count')
     s = c.begin_parse()
-    p = s.preload_uint(width)
-    y = s.load_uint(width)
-    ctx.observe('y', y)
-    ctx.require(y == x, 'uint: load returns the stored value')
-    ctx.require(p == y, 'uint: preload equals load')
-    ctx.require(s.remaining_bits == 0, 'uint: nothing left unread')
+    for i, (t, v) in enumerate(zip(ts, vals)):
+        p = t.preload(s)
+        r = t.load(s)
+        kind = t.name.rstrip('0123456789')
+        ctx.require(t.eq(r, v), f'{kind}: load returns the stored value')
+        ctx.require(t.eq(p, r), f'{kind}: preload equals load')
+        if isinstance(r, (int, bool, str, bytes)) or is_symbolic(r):
+            ctx.observe(f'r{i}', r)
+    ctx.require(s.remaining_bits == 0, 'nothing left unread (bits)')
+    ctx.require(s.remaining_refs == 0, 'nothing left unread (refs)')
+
+
+def h_overrange(ctx, kind, width):
+    """values over width+2 bits: the store raises exactly when the value does not fit (both directions)"""
+    x = ctx.sint('x', width + 2)
+    fits = And(x >= 0, x < (1 << width)) if kind == 'u' else And(x >= -(1 << (width - 1)), x < (1 << (width - 1)))
+    b = Builder()
+    try:
+        (b.store_uint if kind == 'u' else b.store_int)(x, width)
+        raised = False
+    except (OverflowError, ValueError) as ex:
+        raised = True
+    ctx.require(Iff(raised, Not(fits)), f'{kind}{width}: rejected exactly when out of range')
+    if not raised:
+        s = b.end_cell().begin_parse()
+        y = s.load_uint(width) if kind == 'u' else s.load_int(width)
+        ctx.require(y == x, f'{kind}{width}: round trip')
+
+
+def snake_chunks(n, first_avail_bytes):
+    """spec: fill the current cell with whole bytes, continue in a chain of references of up to 127 bytes"""
+    out = [min(n, first_avail_bytes)]
+    n -= out[0]
+    while n > 0:
+        out.append(min(n, 127))
+        n -= out[-1]
+    return out
+
+
+def h_snake(ctx, n, prefix_bytes=0, sym_window=None, as_string=False):
+    """snake-chained byte strings: round trip and chain layout; contents symbolic (entirely, or a window of
+    `sym_window` bytes at the chunk boundary with concrete filler for the very long ones)"""
+    if sym_window is None or sym_window >= n:
+        data = ctx.ascii('data', n) if as_string else ctx.bytes_('data', n)
+    else:
+        # window centred on the first cell boundary
+        first = 127 - prefix_bytes
+        lo = max(0, min(first - sym_window // 2, n - sym_window))
+        filler = bytes((i * 37 + 11) & 0x7f for i in range(n))
+        data = filler[:lo] + ctx.bytes_('data', sym_window) + filler[lo + sym_window:]
+    pre = ctx.bytes_('pre', prefix_bytes)
+    b = Builder().store_bytes(pre)
+    if as_string:
+        b.store_snake_string(data)
+        raw = data.encode() if n else b''
+    else:
+        b.store_snake_bytes(data)
+        raw = data
+    c = b.end_cell()
+    chunks = snake_chunks(n, 127 - prefix_bytes)
+    cur, off = c, 0
+    for i, k in enumerate(chunks):
+        want = cat_bits(bits_of_bytes(pre) if i == 0 else '', bits_of_bytes(raw[off: off + k]))
+        ctx.require(cur.bits.to01() == want, f'snake: cell {min(i, 3)} holds the next bytes')
+        off += k
+        last = i == len(chunks) - 1
+        ctx.require(len(cur.refs) == (0 if last else 1), 'snake: one continuation reference unless last')
+        if not last:
+            cur = cur.refs[0]
+    s = c.begin_parse()
+    ctx.require(s.load_bytes(prefix_bytes) == pre if prefix_bytes else True, 'snake: prefix read back')
+    got = s.load_snake_string() if as_string else s.load_snake_bytes()
+    ctx.require(got == data, 'snake: round trip')
+    ctx.require(And(s.remaining_bits == 0, s.remaining_refs == 0), 'snake: nothing left')
+
+
+def h_addr_foreign(ctx, form):
+    """addresses encoded by the specification (not by the library) are read back by load_ and preload_address"""
+    if form.startswith('any'):
+        d = int(form[3:])
+        wc, acc, pfx = ctx.sint('wc', 8), ctx.bytes_('acc', 32), ctx.uint('pfx', d)
+        bits = enc_addr_std(wc, acc, (d, pfx))
+    elif form == 'std':
+        wc, acc = ctx.sint('wc', 8), ctx.bytes_('acc', 32)
+        bits = enc_addr_std(wc, acc)
+    tail = ctx.bitstr('tail', 5)
+    s = Builder().store_bits(bits).store_bits(tail).end_cell().begin_parse()
+    p = s.preload_address()
+    a = s.load_address()
+    ok = And(a.wc == wc, a.hash_part == acc)
+    ctx.require(ok, f'foreign {form[:3]}: workchain and account')
+    if form.startswith('any'):
+        ctx.require(a.anycast is not None and And(a.anycast.depth == d, a.anycast.rewrite_pfx == pfx), 'foreign any: anycast')
+    ctx.require(And(p.wc == a.wc, p.hash_part == a.hash_part), f'foreign {form[:3]}: preload equals load')
+    ctx.require(s.bits.to01() == tail, f'foreign {form[:3]}: consumed exactly the address')
+
+
+# ------------------------------------------------------------------------------- instances
+QUICK_W = [1, 2, 3, 7, 8, 9, 15, 16, 17, 31, 32, 33, 63, 64, 65, 127, 128, 255, 256, 257]
+SEQ_ALPHABET = ['u1', 'u7', 'i8', 'u64', 'i257', 'svu', 'svi', 'coins24', 'bit', 'bool', 'bits3', 'bytes2', 'str3',
+                'mref1', 'dict0', 'ref', 'addr_none', 'addr_std', 'addr_ext9']
 
 
 def instances(tier, seed):
-    for w in (1, 2, 7, 8, 9, 64, 256, 257):
-        yield 'h_uint', dict(width=w)
+    widths = QUICK_W if tier == 'quick' else list(range(1, 258))
+    for w in widths:
+        if w <= 256:
+            yield 'h_seq', dict(types=[f'u{w}'])
+        yield 'h_seq', dict(types=[f'i{w}'])
+    for w in ([1, 8, 64, 256] if tier == 'quick' else [1, 2, 7, 8, 9, 63, 64, 65, 255, 256]):
+        yield 'h_overrange', dict(kind='u', width=w)
+        yield 'h_overrange', dict(kind='i', width=w + (w == 256))
+    # variable-length integers over the whole range of each length-field size
+    for lb in ((2, 3, 4) if tier == 'quick' else (2, 3, 4, 5)):
+        yield 'h_seq', dict(types=[f'vu{lb}'])
+        yield 'h_seq', dict(types=[f'vi{lb}'])
+    yield 'h_seq', dict(types=['coins'])
+    for t in ('bit', 'bool', 'bits1', 'bits9', 'bits1023', 'bytes1', 'bytes32', 'bytes127', 'str1', 'str127', 'mref0',
+              'mref1', 'dict0', 'dict1', 'ref', 'addr_none', 'addr_std'):
+        yield 'h_seq', dict(types=[t])
+    for n in ((0, 5, 64) if tier == 'quick' else range(0, 128)):
+        yield 'h_seq', dict(types=[f'str{n}'] if n else ['u3', 'str0'])
+    for n in ((0, 1, 8, 255, 256, 511) if tier == 'quick' else (0, 1, 2, 7, 8, 9, 63, 64, 255, 256, 257, 510, 511)):
+        yield 'h_seq', dict(types=[f'addr_ext{n}'])
+    for d in ((1, 5, 30) if tier == 'quick' else range(1, 31)):
+        yield 'h_seq', dict(types=[f'addr_any{d}'])
+        yield 'h_addr_foreign', dict(form=f'any{d}')
+    yield 'h_addr_foreign', dict(form='std')
+    # interleavings at non-aligned positions
+    pairs = list(itertools.product(SEQ_ALPHABET, repeat=2))
+    if tier == 'quick':
+        import random
+        rnd = random.Random(seed)
+        pairs = [p for i, p in enumerate(pairs) if i % 4 == seed % 4] + rnd.sample(pairs, 20)
+    for p in pairs:
+        yield 'h_seq', dict(types=list(p))
+    if tier == 'thorough':
+        import random
+        rnd = random.Random(seed + 1)
+        trip = list(itertools.product(SEQ_ALPHABET, repeat=3))
+        for p in rnd.sample(trip, 900):
+            if sum(parse_type(t).refs for t in p) <= 4:
+                yield 'h_seq', dict(types=list(p))
+    # snake strings around the cell-capacity boundaries
+    for n in ((0, 1, 126, 127, 128, 254, 255) if tier == 'quick' else (0, 1, 2, 126, 127, 128, 129, 253, 254, 255, 256, 381, 382, 1000)):
+        yield 'h_snake', dict(n=n)
+        if n:
+            yield 'h_snake', dict(n=n, prefix_bytes=3)
+    yield 'h_snake', dict(n=130, as_string=True)
+    if tier == 'thorough':
+        yield 'h_snake', dict(n=127 * 40, sym_window=16)
+
+
+def twins(tier, seed):
+    yield 'h_seq', dict(types=['u8'], twin='plus1')
+    yield 'h_seq', dict(types=['i257', 'u3'], twin='plus1')
+    yield 'h_seq', dict(types=['vu4'], twin='plus1')
+
+
+BOUNDS = {
+    'integers': 'every value of the width; widths: quick = boundary set, thorough = 1..257',
+    'variable-length integers': 'every value representable with the length field: 2,3,4 bits (quick), 2..5 bits (thorough)',
+    'sequences': 'all pairs (quick: a seeded quarter + 20) and 900 seeded triples (thorough) over ' + ' '.join(SEQ_ALPHABET),
+    'strings': 'ASCII, lengths 0..127 (quick: 0,5,64,1,127)',
+    'snake': 'lengths around 127/254/381 bytes, fully symbolic; 5080 bytes with a 16-byte symbolic window (thorough)',
+    'addresses': 'addr_none; addr_extern len 0..511 boundaries; addr_std all (wc, account); anycast depth 1..30',
+}
+OUTSIDE = ['non-ASCII text', 'snake strings longer than 5080 bytes', 'addr_var (unsupported by the library, not in the property)',
+           'sequences longer than 3 values']
+STUBS = ['hashlib.sha256: injective uninterpreted function (only equality of cell hashes is used here)']
+ASSUMPTIONS = ['TL-B primitive encodings as written in specs/enc.py', 'bitarray model (validated per path witness against the real bitarray)']
